@@ -4,7 +4,7 @@ PROP = {
     "bin": "c13",
     "coq_targets": ["theories/Flow/C13Check"],
     "n": {"quick": 480, "thorough": 12000},
-    "theorems": ["constants_sound", "constants_eval_sound", "constants_exact", "constants_remap_total", "constants_completes", "constants_only_budget_error", "constants_sound_refuted"],
+    "theorems": ["constants_sound", "constants_eval_sound", "constants_exact", "constants_remap_total", "constants_completes", "constants_only_budget_error", "constants_half_assigned_repaired"],
     "rule": "random IL functions over 2-5 scalars (1-6 blocks, <=4 instructions each): constant assignments, `s = t op c`, `s = t op u`, "
             "`s = s + 1`, loads, stores, intrinsics with declared/undeclared effects, indirect branches, flags from comparisons; chains, "
             "diamonds, loops, entry inside a loop in ~1/12, an unreachable predecessor block in ~1/5, entry block initialising every scalar in 1/2; "
@@ -13,6 +13,6 @@ PROP = {
     "trusted_base": [KERNEL, HARNESS_TB],
     "assumptions": ["cfg_inv (C15) and c13_wf (one width per scalar name, well-sorted assignment sources of the destination width) for the theorems", "executions are those of Exec/Sem.v"],
     "partial": [],
-    "level_text": "Unbounded Coq theorems about a Gallina transcription of constants.rs (lattice, length-first partial_cmp, join, eval, trans, remap) run through the C09 engine model: on functions in which every read is definitely assigned, every reported constant and every Constants::eval answer agrees with every execution of the reference IL semantics (all loops, all initial states); the engine result is an exact solution; the remap pass is total; the analysis completes within the C09 step bound and for any budget fails only with FixedPointMaxSteps. Plus an in-kernel differential tie of the model to the Rust code and an execution-based oracle on generated functions. Outside definite assignment soundness is refuted by a machine-checked witness (known finding).",
+    "level_text": "Unbounded Coq theorems about a Gallina transcription of constants.rs (lattice, length-first partial_cmp, join, eval, trans, remap) run through the C09 engine model: on every well-formed function (no definite-assignment hypothesis), every reported constant and every Constants::eval answer agrees with every execution of the reference IL semantics (all loops, all initial states); the engine result is an exact solution; the remap pass is total; the analysis completes within the C09 step bound and for any budget fails only with FixedPointMaxSteps. Plus an in-kernel differential tie of the model to the Rust code and an execution-based oracle on generated functions.",
     "level_note": "Trusted: Coq kernel + vm_compute; the harness (generator, Debug-rendering parser of the private map, printer); Exec/Sem.v as the meaning of execution (executions stop at intrinsics and indirect branches); the model is hand-written and tied to the code differentially.",
 }
